@@ -287,7 +287,10 @@ class Life:
         ode = hd["ode"]
         what = op["what"]
         ev["key"] = "API|%s|%s" % (hd["mkey"], what)
-        ev["judged"] = hd["judged"]
+        # judged: results that are slot layout or generated code lines.  The string form of
+        # the symbolic matrices / repr() is sympy's own printing of a symbolic object, about
+        # which C09 says nothing: recorded as probes only (they still perturb the history).
+        ev["judged"] = hd["judged"] and what not in ("rhs_matrix", "repr_eq")
         dt = sympy.Symbol("dt")
         if what == "sorted_assignments_ru":
             res = [a.name for a in ode.sorted_assignments(remove_unused=True)]
